@@ -199,11 +199,12 @@ func (a *Agent) handleICMPOpenAck(peerID identity.AgentID, frame *protocol.Frame
 	}
 
 	// Check if this is for ingress (SOCKS5 client initiated)
+	// Stream IDs are per connection: only the session's next hop speaks for it
 	a.icmpIngressMu.RLock()
 	ingress := a.icmpIngressByStream[frame.StreamID]
 	a.icmpIngressMu.RUnlock()
 
-	if ingress != nil {
+	if ingress != nil && ingress.NextHop == peerID {
 		ack, err := protocol.DecodeICMPOpenAck(frame.Payload)
 		if err != nil {
 			ingress.closePendingOpen(err)
@@ -231,7 +232,7 @@ func (a *Agent) handleICMPOpenAck(peerID identity.AgentID, frame *protocol.Frame
 	wsSession := a.icmpWSSessionByStream[frame.StreamID]
 	a.icmpWSSessionMu.RUnlock()
 
-	if wsSession == nil {
+	if wsSession == nil || wsSession.NextHop != peerID {
 		return
 	}
 
@@ -274,6 +275,9 @@ func (a *Agent) handleICMPOpenErr(peerID identity.AgentID, frame *protocol.Frame
 	// Check if this is for ingress (SOCKS5 client initiated)
 	a.icmpIngressMu.Lock()
 	ingress := a.icmpIngressByStream[frame.StreamID]
+	if ingress != nil && ingress.NextHop != peerID {
+		ingress = nil
+	}
 	if ingress != nil {
 		delete(a.icmpIngressByStream, frame.StreamID)
 	}
@@ -292,6 +296,9 @@ func (a *Agent) handleICMPOpenErr(peerID identity.AgentID, frame *protocol.Frame
 	// Check if this is for WebSocket session
 	a.icmpWSSessionMu.Lock()
 	wsSession := a.icmpWSSessionByStream[frame.StreamID]
+	if wsSession != nil && wsSession.NextHop != peerID {
+		wsSession = nil
+	}
 	if wsSession != nil {
 		delete(a.icmpWSSessionByStream, frame.StreamID)
 	}
@@ -330,7 +337,7 @@ func (a *Agent) handleICMPEcho(peerID identity.AgentID, frame *protocol.Frame) {
 	ingress := a.icmpIngressByStream[frame.StreamID]
 	a.icmpIngressMu.RUnlock()
 
-	if ingress != nil {
+	if ingress != nil && ingress.NextHop == peerID {
 		echo, err := protocol.DecodeICMPEcho(frame.Payload)
 		if err != nil {
 			return
@@ -369,7 +376,7 @@ func (a *Agent) handleICMPEcho(peerID identity.AgentID, frame *protocol.Frame) {
 	wsSession := a.icmpWSSessionByStream[frame.StreamID]
 	a.icmpWSSessionMu.RUnlock()
 
-	if wsSession != nil {
+	if wsSession != nil && wsSession.NextHop == peerID {
 		echo, err := protocol.DecodeICMPEcho(frame.Payload)
 		if err != nil {
 			return
@@ -453,7 +460,7 @@ func (a *Agent) handleICMPClose(peerID identity.AgentID, frame *protocol.Frame) 
 	// Check if this is for ingress (SOCKS5 client session)
 	a.icmpIngressMu.Lock()
 	ingress := a.icmpIngressByStream[frame.StreamID]
-	if ingress != nil {
+	if ingress != nil && ingress.NextHop == peerID {
 		delete(a.icmpIngressByStream, frame.StreamID)
 	}
 	a.icmpIngressMu.Unlock()
@@ -464,6 +471,9 @@ func (a *Agent) handleICMPClose(peerID identity.AgentID, frame *protocol.Frame) 
 	// Check if this is for WebSocket session
 	a.icmpWSSessionMu.Lock()
 	wsSession := a.icmpWSSessionByStream[frame.StreamID]
+	if wsSession != nil && wsSession.NextHop != peerID {
+		wsSession = nil
+	}
 	if wsSession != nil {
 		delete(a.icmpWSSessionByStream, frame.StreamID)
 	}
